@@ -8,7 +8,7 @@ from sim import common
 from sim import scenario as SC
 
 
-def build_turtle(scratch, integrator="LangevinInertia", seed=1):
+def build_turtle(scratch, integrator="LangevinInertia", seed=1, settings_seed=None):
     import tomli
     from infretis.classes.engines.factory import create_engine
     from infretis.classes.orderparameter import create_orderparameter
@@ -18,6 +18,9 @@ def build_turtle(scratch, integrator="LangevinInertia", seed=1):
     cfg["engine"]["integrator"]["class"] = integrator
     if integrator == "VelocityVerlet":
         cfg["engine"]["integrator"]["settings"] = {}
+    elif settings_seed is not None:
+        # a seed left in the integrator settings of the input file must not override the job's stream
+        cfg["engine"]["integrator"]["settings"]["seed"] = settings_seed
     shutil.copy(os.path.join(common.REPO, "examples", "turtlemd", "double_well", "orderp.py"), scratch)
     cfg["orderparameter"]["module"] = os.path.join(scratch, "orderp.py")
     import contextlib
